@@ -153,6 +153,14 @@ def unit_tinyvec(tier, seed):
 
 
 UNITS['tinyvec'] = unit_tinyvec
+
+
+def unit_coredeps(tier, seed):
+    import unit_coredeps
+    return unit_coredeps.run(tier, seed)
+
+
+UNITS['coredeps'] = unit_coredeps
 UNITS['l1float'] = unit_l1float
 UNITS['l1int'] = unit_l1int
 UNITS['l1enc'] = unit_l1enc
@@ -241,7 +249,7 @@ PROPERTY_UNITS['C04'] = ['crc', 'frame', 'crcstep']
 PROPERTY_UNITS['C05'] = ['frame']
 PROPERTY_UNITS['C06'] = ['frame']
 PROPERTY_UNITS['C13'] = ['frame']
-PROPERTY_UNITS['C18'] = ['sigtab']
+PROPERTY_UNITS['C18'] = ['sigtab', 'coredeps']
 PROPERTY_UNITS['C07'] = ['l0bits']
 PROPERTY_UNITS['C08'] = ['dfvc', 'l1int', 'l0bits']
 PROPERTY_UNITS['C11'] = ['dfvc']
